@@ -132,7 +132,7 @@ var commonAssumptions = []string{
 
 func init() {
 	registerRuntime(&runtimeCheck{ID: "C05", Profile: schema.ProfileCodec, Inner: []string{"c05"}, Prefix: "j",
-		Batches: [2]int{1, 10}, PerBatch: [2]int{64, 64}, Cases: [2]int{120, 400},
+		Batches: [2]int{1, 10}, PerBatch: [2]int{96, 64}, Cases: [2]int{120, 400},
 		Rule:        "cases = (schema from the codec profile with every RPC on an explicit route) x RPC x (request value, response value). The generated Go server is driven with raw HTTP: the request body is the reference model's encoding of the request value, the handler returns the response value. Oracle: handler-visible request == value (accepted form) and the response body tree == model encoding (sent form), compared field by field incl. un-annotated fields. Non-trivial = request or response type carries an annotation at any depth, or the value is presence-sensitive; distinct by (RPC, request value, response value). Contexts are counted in classes request:ctx:* / response:ctx:*.",
 		Assumptions: commonAssumptions})
 	registerRuntime(&runtimeCheck{ID: "C02", Profile: schema.ProfileServerTransport, Inner: []string{"c02"}, Prefix: "u", Variant: "server",
